@@ -307,6 +307,53 @@ def gen_history(rng, lang, opts):
     return line
 
 
+def gen_chain(rng, lang, opts):
+    """boundary shape: the relations of a path (or cycle) over all variables, added one by one in
+    random order together with a few bounds, then every pair of variables is queried: each
+    bound needs the transitive step through edges that were added before AND after it"""
+    nv = rng.randint(3, min(5, max(3, opts.get("maxvars", 5))))
+    ref = Ref(lang, nv)
+    m = ref.top()
+    perm = list(range(nv)); rng.shuffle(perm)
+    cs = []
+    for i in range(nv - 1 + rng.randint(0, 1)):
+        x, y = perm[i % nv], perm[(i + 1) % nv]
+        k = rng.choice([0, 1, -1, 2, 3, -3, 5, 10])
+        if i >= nv - 1:
+            k = abs(k) + 12          # closing edge: keep the cycle non-negative most of the time
+        if lang == "oct" and rng.random() < 0.4:
+            sx, sy = rng.choice([1, -1]), rng.choice([1, -1])
+        else:
+            sx, sy = 1, -1
+        ts = sorted([(sx, x), (sy, y)], key=lambda t: t[1])
+        cs.append((rng.choice(["le", "le", "le", "eq", "lt"]), (ts, k)))
+    for _ in range(rng.randint(0, 2)):
+        v = rng.randrange(nv)
+        cs.append(("le", ([(rng.choice([1, -1]), v)], rng.choice([0, -5, 5, -20]))))
+    rng.shuffle(cs)
+    ops = []
+    for c in cs:
+        ops.append("assume 0 1 %s" % fmt_cst(c))
+        m = ref.add(m, [c])
+    if m is not None:
+        sh = shapes(lang, nv)
+        rng.shuffle(sh)
+        for terms in sh[:12]:
+            k = ref.tight(m, terms)
+            if k is None:
+                ops.append("q_entails 0 %s" % fmt_cst(("le", (terms, -(2 ** 41)))))
+            else:
+                ops.append("q_entails 0 %s" % fmt_cst(("le", (terms, -k))))
+                ops.append("q_entails 0 %s" % fmt_cst(("le", (terms, -(k - 1)))))
+    if "forget" in opts.get("ops", ["forget"]):
+        v = rng.randrange(nv)
+        ops.append("forget 0 1 %d" % v)
+    line = "hist 2 %d ; %s" % (nv, " ; ".join(ops))
+    if opts.get("params"):
+        line = "P %s %s" % ("".join(rng.choice("01") for _ in range(4)), line)
+    return line
+
+
 # hand-picked cases (always first)
 CORPUS = {
     "zone": [
@@ -388,8 +435,11 @@ def gen(seed, tier, lang, n=None, opts=None):
     # boundary: histories aimed at the case splits (empty / one-point values, chains that need
     # the transitive step, ties between a relation and the bounds)
     nb = n // 4 if opts.get("boundary", True) else 0
-    for _ in range(nb):
+    for i in range(nb):
         o = dict(opts)
+        if i % 3 == 0 and lang != "interval" and "assume" in opts.get("ops", ["assume"]):
+            lines.append(gen_chain(rng, lang, o))
+            continue
         o.update(ks=KS_SMALL, maxvars=min(3, opts.get("maxvars", 5)), minops=4, maxops=14, maxq=6, qprob=0.9)
         lines.append(gen_history(rng, lang, o))
     for _ in range(n - nb):
